@@ -861,6 +861,18 @@ func (vm *vm) closeIters(iterTail []iterStackItem, iterLen, refLen uint32) (ex *
 	return
 }
 
+// restoreStacksForThrow is restoreStacks for handleThrow: a panic raised while closing the iterators (try() re-panics
+// uncatchable exceptions and foreign panics) is returned instead of propagated.
+func (vm *vm) restoreStacksForThrow(iterLen, refLen uint32) (unc interface{}) {
+	defer func() {
+		if x := recover(); x != nil {
+			unc = x
+		}
+	}()
+	_ = vm.restoreStacks(iterLen, refLen)
+	return nil
+}
+
 // discardStacks truncates the iterator and reference stacks without closing the iterators. Used when unwinding
 // for an uncatchable exception (interrupt, stack overflow) or a foreign panic: no script code must run then.
 func (vm *vm) discardStacks(iterLen, refLen uint32) {
@@ -897,7 +909,14 @@ func (vm *vm) handleThrow(arg interface{}) *Exception {
 		if ex == nil {
 			vm.discardStacks(tf.iterLen, tf.refLen)
 		} else {
-			_ = vm.restoreStacks(tf.iterLen, tf.refLen)
+			if unc := vm.restoreStacksForThrow(tf.iterLen, tf.refLen); unc != nil {
+				// Closing an iterator was cut short by an uncatchable exception (interrupt, stack overflow) or a foreign
+				// panic. It supersedes the exception being handled: continue unwinding in uncatchable mode from this
+				// frame on. (Letting it propagate as a Go panic from here would skip the frames below: handleThrow often
+				// runs inside the deferred recover of runTryInner / try, where nothing recovers it a second time.)
+				arg, ex = unc, nil
+				continue
+			}
 			// restoreStacks() closes iterators, i.e. runs script code that may grow (reallocate) the try stack
 			tf = &vm.tryStack[len(vm.tryStack)-1]
 		}
